@@ -16,6 +16,7 @@
 //! history whose prefix conforms.
 
 mod alphabet;
+mod dnssec;
 mod keying;
 
 use std::collections::{BTreeSet, HashSet};
@@ -64,6 +65,9 @@ pub struct Pre {
     pub content: BTreeSet<Rr>,
     pub inv: Vec<&'static str>,
     pub serial: Option<u32>,
+    /// DNSSEC-enabled sub-grid: the signed-zone clauses the state already violates
+    /// (None = the handler is not DNSSEC-enabled)
+    pub dnssec: Option<BTreeSet<(String, String)>>,
 }
 
 impl Pre {
@@ -72,8 +76,28 @@ impl Pre {
         let content = zone.content();
         let inv = ru::invariants(&zone);
         let serial = zone.serial();
-        Pre { snap, zone, content, inv, serial }
+        Pre { snap, zone, content, inv, serial, dnssec: None }
     }
+    /// The state of `env` (its snapshot `snap` already taken), with the signed-zone clauses
+    /// evaluated if the handler is DNSSEC-enabled.
+    pub fn of(w: &Worker, env: &Env, snap: Snap, dnssec: bool) -> Pre {
+        let mut p = Pre::new(snap);
+        if dnssec {
+            p.dnssec = Some(dnssec::check(&dnssec::view(&w.rt.block_on(env.save())), vupd::NOW));
+        }
+        p
+    }
+}
+
+/// The observable zone state; for a DNSSEC-enabled handler without RRSIG/NSEC/DNSKEY (those are
+/// judged by the signed-zone clauses, the RFC 2136 clauses are about the rest).
+pub fn snapshot(w: &Worker, env: &Env, dnssec: bool) -> Snap {
+    let mut s = w.rt.block_on(env.snapshot());
+    if dnssec {
+        s.rrs.retain(|r| !dnssec::is_dnssec_type(r.rtype));
+        s.empty_keys.retain(|(_, t)| !dnssec::is_dnssec_type(*t));
+    }
+    s
 }
 
 fn rcodes_text(s: &BTreeSet<u8>) -> String {
@@ -127,7 +151,7 @@ pub fn step(w: &Worker, env: &Env, pre: &Pre, msg: &Msg, id: u16) -> StepOut {
     let verdict = ru::process(&pre.zone, &upd);
 
     let res = catch(|| w.rt.block_on(async { env.exchange(&bytes).await }));
-    let post = w.rt.block_on(env.snapshot());
+    let post = snapshot(w, env, pre.dnssec.is_some());
     let changed = post != pre.snap;
     let rcode = match res {
         Err(p) => {
@@ -274,6 +298,27 @@ pub fn step(w: &Worker, env: &Env, pre: &Pre, msg: &Msg, id: u16) -> StepOut {
         }
     }
 
+    // signed-zone clauses (DNSSEC-enabled sub-grid): reported on the transition that introduces them
+    if let Some(before) = &pre.dnssec {
+        let has_key = |s: &Snap| s.rrs.iter().any(|r| r.rtype == dnssec::T_DNSKEY);
+        if changed && has_key(&pre.snap) && !has_key(&post) {
+            // the update itself removed the zone's published key (RFC 2136 lets it): what a signer
+            // should do then is not judged
+            observations.push("obs:dnssec:update-deleted-the-dnskey-rrset");
+        } else if changed {
+            let after = dnssec::check(&dnssec::view(&w.rt.block_on(env.save())), vupd::NOW);
+            let known_scenes: BTreeSet<&String> = before.iter().map(|x| &x.0).collect();
+            for (scene, what) in &after {
+                if !known_scenes.contains(scene) {
+                    findings.push(Finding { clause: scene.clone(), detail: String::new(), what: format!("after the update the signed zone is not well-formed: {what}") });
+                }
+            }
+            if after.is_empty() {
+                observations.push("obs:dnssec:zone-validly-signed-after-update");
+            }
+        }
+    }
+
     // invariants: reported on the transition that introduces the breach
     for iv in post_inv.iter() {
         if !pre.inv.contains(iv) {
@@ -310,13 +355,13 @@ fn case_json(cfg_zone: &[Rr], history: &[Msg], msg: &Msg) -> Value {
 }
 
 /// Build the handler of a node by replaying its history on a fresh handler.
-fn rebuild(w: &Worker, zone: &[Rr], history: &[Msg]) -> (Env, Snap) {
-    let env = w.rt.block_on(Env::new(zone, EnvOpts::default()));
+fn rebuild(w: &Worker, zone: &[Rr], dnssec: bool, history: &[Msg]) -> (Env, Snap) {
+    let env = if dnssec { dnssec::signed_env(zone, vec![w.signer.clone()]) } else { w.rt.block_on(Env::new(zone, EnvOpts::default())) };
     for (i, m) in history.iter().enumerate() {
         let bytes = vupd::signed_update(100 + i as u16, m, &w.signer, vupd::NOW);
         let _ = catch(|| w.rt.block_on(async { env.exchange(&bytes).await }));
     }
-    let snap = w.rt.block_on(env.snapshot());
+    let snap = snapshot(w, &env, dnssec);
     (env, snap)
 }
 
@@ -333,12 +378,12 @@ struct Shared<'a> {
 /// Apply `alpha[lo..hi]` to the state of `node`; returns the conforming state-changing successors.
 fn expand(sh: &Shared, w: &Worker, node: &Node, alpha: &[MsgSpec], lo: usize, hi: usize, l: &mut Local, want_succ: bool) -> Vec<Node> {
     let cfg = &sh.cfgs[node.cfg];
-    let (env, snap) = rebuild(w, &cfg.zone, &node.history);
+    let (env, snap) = rebuild(w, &cfg.zone, cfg.dnssec, &node.history);
     if snap.key(cfg.serial0) != node.key {
         sh.ctx.machinery_failure(&format!("replaying a history gave another state than its first execution (cfg {})", cfg.name));
         return vec![];
     }
-    let pre = Pre::new(snap);
+    let pre = Pre::of(w, &env, snap, cfg.dnssec);
     let saved = w.rt.block_on(env.save());
     let cur = pre.serial.unwrap_or(0);
     let mut succ = vec![];
@@ -353,8 +398,8 @@ fn expand(sh: &Shared, w: &Worker, node: &Node, alpha: &[MsgSpec], lo: usize, hi
         // (no store put-back involved) must look exactly the same
         if (node.key ^ (mi as u64).wrapping_mul(0x9e3779b97f4a7c15)) % 127 == 0 {
             sh.selftests.fetch_add(1, Ordering::Relaxed);
-            let (env2, snap2) = rebuild(w, &cfg.zone, &node.history);
-            let out2 = step(w, &env2, &Pre::new(snap2), &msg, id);
+            let (env2, snap2) = rebuild(w, &cfg.zone, cfg.dnssec, &node.history);
+            let out2 = step(w, &env2, &Pre::of(w, &env2, snap2, cfg.dnssec), &msg, id);
             if out2.digest() != out.digest() {
                 sh.selftest_mismatch.fetch_add(1, Ordering::Relaxed);
             }
@@ -414,6 +459,7 @@ fn classify(sh: &Shared, w: &Worker, cfg: &Config, node: &Node, pre: &Pre, msg: 
         l.violation(&key, &f.what, || {
             let mut j = case_json(&cfg.zone, history, msg);
             j["clause"] = json!(f.clause);
+            j["dnssec_enabled"] = json!(cfg.dnssec);
             j["minimal_witness"] = sh.keyer.witness(&key).unwrap_or(Value::Null);
             j["pre_state"] = json!(pre.snap.text());
             j["post_state"] = json!(out.post.text());
@@ -464,8 +510,9 @@ fn main() {
             let zone: Vec<Rr> = case["initial_zone"].as_array().map(|a| a.iter().map(vupd::rr_from_json).collect()).unwrap_or_default();
             let history: Vec<Msg> = case["history"].as_array().map(|a| a.iter().map(Msg::from_json).collect()).unwrap_or_default();
             let msg = Msg::from_json(&case["message"]);
-            let (env, snap) = rebuild(&w, &zone, &history);
-            let pre = Pre::new(snap);
+            let dn = case["dnssec_enabled"].as_bool().unwrap_or(false);
+            let (env, snap) = rebuild(&w, &zone, dn, &history);
+            let pre = Pre::of(&w, &env, snap, dn);
             let out = step(&w, &env, &pre, &msg, 1000);
             l.eval();
             for f in &out.findings {
@@ -539,14 +586,23 @@ fn main() {
     {
         let w = Worker::new();
         for (ci, cfg) in cfgs.iter().enumerate() {
-            let (env, snap) = rebuild(&w, &cfg.zone, &[]);
+            let (env, snap) = rebuild(&w, &cfg.zone, cfg.dnssec, &[]);
             let mut want = cfg.zone.clone();
             want.sort();
-            if snap.rrs != want || !snap.empty_keys.is_empty() {
+            if cfg.dnssec {
+                let bad = dnssec::check(&dnssec::view(&w.rt.block_on(env.save())), vupd::NOW);
+                let mut loaded = snap.clone();
+                loaded.rrs.retain(|r| r.rtype != dnssec::T_DNSKEY);
+                if !bad.is_empty() || loaded.content() != (Snap { rrs: want.clone(), empty_keys: vec![] }).content() {
+                    ctx.machinery_failure(&format!("the freshly signed initial zone {} is not judged well-formed: {bad:?}", cfg.name));
+                }
+            } else if snap.rrs != want || !snap.empty_keys.is_empty() {
                 ctx.machinery_failure(&format!("initial zone {} does not load as written: {:?}", cfg.name, snap.text()));
             }
-            if let Err(e) = axfr_agrees(&w, &env, &snap) {
-                ctx.machinery_failure(&format!("AXFR of the initial zone {}: {e}", cfg.name));
+            if !cfg.dnssec {
+                if let Err(e) = axfr_agrees(&w, &env, &snap) {
+                    ctx.machinery_failure(&format!("AXFR of the initial zone {}: {e}", cfg.name));
+                }
             }
             let k = snap.key(cfg.serial0);
             seen.insert((ci, k));
@@ -561,6 +617,9 @@ fn main() {
     ctx.set("depth_m1_full", json!(d_full));
     ctx.set("depth_m1_core", json!(d_core));
     ctx.set("depth_m2_from_states_up_to", json!(d_m2));
+    // DNSSEC-enabled roots: M1-core from every state at depth < d_dnssec, M2b from the roots
+    let d_dnssec: usize = if thorough { 3 } else { 1 };
+    ctx.set("depth_dnssec_roots", json!(d_dnssec));
     let max_depth = d_core.max(d_full);
 
     let mut dups: Vec<Node> = vec![];
@@ -577,8 +636,13 @@ fn main() {
         let mut tasks: Vec<Task> = vec![];
         for (ni, n) in frontier.iter().enumerate() {
             let cfg = &cfgs[n.cfg];
+            if cfg.dnssec && depth >= d_dnssec {
+                continue;
+            }
             let a = if cfg.serial_focus {
                 A_SERIAL
+            } else if cfg.dnssec {
+                A_CORE
             } else if depth < d_full {
                 A_M1
             } else {
@@ -593,10 +657,10 @@ fn main() {
                 }
             };
             push(a, true);
-            if (depth as i32) <= d_m2 && !cfg.serial_focus {
+            if (depth as i32) <= d_m2 && !cfg.serial_focus && !cfg.dnssec {
                 push(A_M2, false);
             }
-            if depth <= 1 {
+            if depth <= 1 && (!cfg.dnssec || depth == 0) {
                 push(A_M2B, false);
             }
         }
@@ -653,7 +717,10 @@ fn main() {
         ctx.par_run_init(picked.len() as u64, 8, |_| Worker::new(), |i, l, w| {
             let n = picked[i as usize];
             let cfg = &cfgs[n.cfg];
-            let (env, snap) = rebuild(w, &cfg.zone, &n.history);
+            if cfg.dnssec {
+                return;
+            }
+            let (env, snap) = rebuild(w, &cfg.zone, false, &n.history);
             l.eval();
             match axfr_agrees(w, &env, &snap) {
                 Ok(()) => l.outcome("axfr-agrees"),
@@ -678,8 +745,8 @@ fn main() {
             let (d, r) = pairs[i as usize];
             let cfg = &cfgs[d.cfg];
             let fut = |n: &Node| -> Vec<u64> {
-                let (env, snap) = rebuild(w, &cfg.zone, &n.history);
-                let pre = Pre::new(snap);
+                let (env, snap) = rebuild(w, &cfg.zone, cfg.dnssec, &n.history);
+                let pre = Pre::of(w, &env, snap, cfg.dnssec);
                 let saved = w.rt.block_on(env.save());
                 let cur = pre.serial.unwrap_or(0);
                 core.iter()
